@@ -242,22 +242,27 @@ def run(ctx):
             some = any(t == ('discr', ('load', idxp)) and v == 1 for t, v in p.cons)
             if not some:
                 continue
-            bound = [(t, v) for t, v in p.cons if t[0] == 'bin' and t[1] in ('Ge', 'Lt') and t[2] == ('param', 2)]
+            # the comparison of the requested position with the number of index entries (canonical atoms: Lt / Le only)
+            I_ = ('param', 2)
+            lens = [x for t, v in p.cons if t[0] == 'bin' and t[1] in ('Lt', 'Le') and I_ in (t[2], t[3])
+                    for x in (t[2], t[3]) if x != I_ and x[0] == 'len']
+            ln = lens[0] if lens else None
+            in_range = ln is not None and absint.holds(p.cons, '<', I_, ln)
+            out_of_range = ln is not None and absint.holds(p.cons, '<=', ln, I_)
             if is_agg(p.ret, None, 'None'):
                 n_none += 1
-                if not bound or not (bound[0][0][1] == 'Ge' and bound[0][1] != 0) or p.io():
+                if not out_of_range or p.io():
                     good = False
-                    why.append("None returned under %s" % [(absint.term_str(t), v) for t, v in bound])
+                    why.append("None returned under %s" % [(absint.term_str(t), v) for t, v in p.cons if I_ in (t[2:4] if t[0] == 'bin' else ())])
             elif is_agg(p.ret, None, 'Some') and is_agg(agg_field(p.ret, '0'), None, 'Ok'):
                 # slice::get(i) is None iff i >= len: a path that assumes both i < len(X) and get(X, i) == None is infeasible
                 getnone = [t for t, v in p.cons if t[0] == 'discr' and t[1][0] == 'get' and v == 0 and t[1][2] == ('param', 2)]
-                if getnone and bound and bound[0][1] == 0 and \
-                        affine.canon_coll(getnone[0][1][1]) == affine.canon_coll(bound[0][0][3][1] if bound[0][0][3][0] == 'len' else bound[0][0][3]):
+                if getnone and in_range and affine.canon_coll(getnone[0][1][1]) == affine.canon_coll(ln[1]):
                     continue
                 n_some += 1
                 ios = p.io()
                 sk = [e for e in ios if e[1] == 'seek']
-                if not bound or not (bound[0][0][1] == 'Ge' and bound[0][1] == 0):
+                if not in_range:
                     good = False
                     why.append("Some returned without i < len")
                 if len(sk) != 2:
